@@ -1,6 +1,7 @@
 package c18
 
 import (
+	"encoding/json"
 	"fmt"
 	"sort"
 	"strings"
@@ -244,9 +245,22 @@ type bounds struct {
 	maxTargets int // foreign updates target at most this many PodGroups (first by name) of a scenario
 }
 
-func tierBounds(tier string) bounds {
+// tierBounds: quick = depth 6, 5 foreign-update kinds; thorough = 7 kinds, depth 7 for single-group workloads,
+// 6 for workloads with several PodGroups (per-pod kinds, JobSet, LWS groups) and 5 for those with 4 pods.
+func tierBounds(tier string, sc *scenario) bounds {
+	groups := map[int]bool{}
+	for _, g := range sc.Part {
+		groups[g] = true
+	}
 	if tier == "thorough" {
-		return bounds{depth: 7, maxStates: 60000, foreign: foreignKinds, maxTargets: 2}
+		b := bounds{depth: 7, maxStates: 25000, foreign: foreignKinds, maxTargets: 2}
+		if len(groups) > 1 {
+			b.depth = 6
+			if len(sc.Pods) >= 4 {
+				b.depth = 5
+			}
+		}
+		return b
 	}
 	return bounds{depth: 6, maxStates: 20000, foreign: []string{"queue", "markUnschedulable", "schedulingBackoff", "nodepool", "scheduler"}, maxTargets: 2}
 }
@@ -358,19 +372,76 @@ func replicaViolations(sc *scenario, hist []string, v *storeView, full *finalSta
 	return out
 }
 
-func sameMultiset(a, b []string) bool {
-	if len(a) != len(b) {
-		return false
+// diffOracle implements oracle (2) without keeping every store:
+//   - order-dependence: stores reached by the same multiset of actions in a different order must be equal
+//     (per multiset only the first history and a digest of its store are kept; on a digest mismatch the first
+//     history is re-executed to name the differing field);
+//   - repeat-dependence: the first store of every multiset must agree with the reference store (first
+//     permutation, three passes) on everything the grouper owns, and - between histories without foreign
+//     updates - on the foreign-owned fields and the pods' assignment too.
+type groupRef struct {
+	hist   []string
+	digest string
+}
+
+type diffOracle struct {
+	sc     *scenario
+	ref    *finalState
+	groups map[string]groupRef
+	count  int
+	reruns int
+	report func(law string, x, y *finalState, f, d string)
+}
+
+func digestFinal(fs *finalState) string {
+	type pgp struct {
+		Name    string
+		Owned   map[string]string
+		Foreign map[string]string
 	}
-	x, y := append([]string{}, a...), append([]string{}, b...)
-	sort.Strings(x)
-	sort.Strings(y)
-	for i := range x {
-		if x[i] != y[i] {
-			return false
+	proj := struct {
+		Pods []podView
+		PGs  []pgp
+	}{Pods: fs.view.Pods}
+	for i := range fs.view.PGs {
+		g := &fs.view.PGs[i]
+		p := pgp{Name: g.Name, Owned: ownedView(g)}
+		if fs.clean {
+			p.Foreign = foreignFields(g)
 		}
+		proj.PGs = append(proj.PGs, p)
 	}
-	return true
+	b, err := json.Marshal(proj)
+	must(err)
+	return engine.HashKey(string(b))
+}
+
+func (o *diffOracle) add(fs *finalState) {
+	o.count++
+	ms := append([]string{}, fs.hist...)
+	sort.Strings(ms)
+	k := engine.HashKey(strings.Join(ms, ","))
+	d := digestFinal(fs)
+	if g, ok := o.groups[k]; ok {
+		if g.digest != d && o.reruns < 20 {
+			o.reruns++
+			if w, _, he, _ := runHistory(o.sc, g.hist); he == "" {
+				first := &finalState{hist: g.hist, view: w.view(), clean: fs.clean}
+				if f, dd := diffFinal(first, fs); f != "" {
+					o.report("order-dependent", first, fs, f, dd)
+				}
+			}
+		}
+		return
+	}
+	o.groups[k] = groupRef{hist: fs.hist, digest: d}
+	if o.ref == nil {
+		o.ref = fs
+		return
+	}
+	if f, dd := diffFinal(o.ref, fs); f != "" {
+		o.report("repeat-dependent", o.ref, fs, f, dd)
+	}
 }
 
 type node struct {
@@ -381,7 +452,7 @@ type node struct {
 }
 
 func explore(sc *scenario, kindID, tier string, budget *engine.Budget) *scenarioStats {
-	bd := tierBounds(tier)
+	bd := tierBounds(tier, sc)
 	out := &scenarioStats{Scenario: sc.Name, Kind: sc.Kind, KindID: kindID, Pods: len(sc.Pods)}
 	st := &stepStats{foreignKindsFollowed: map[string]bool{}}
 	seenViol := map[string]bool{}
@@ -408,7 +479,13 @@ func explore(sc *scenario, kindID, tier string, budget *engine.Budget) *scenario
 			out.Violations = append(out.Violations, v)
 		}
 	}
-	finals := []*finalState{}
+	// (2) differential oracle, applied online to every all-reconciled store (see diffOracle)
+	dor := &diffOracle{sc: sc, groups: map[string]groupRef{}}
+	dor.report = func(law string, x, y *finalState, f, d string) {
+		addV([]engine.Violation{{Property: "C18", Key: fmt.Sprintf("C18/%s kind=%s field=%s", law, sc.Kind, f),
+			Message: fmt.Sprintf("%s: the PodGroup state after all pods were reconciled depends on the history: %v vs %v: %s", sc.Name, x.hist, y.hist, d),
+			Replay:  replayData{Scenario: sc.Name, Chain: sc.Chain, Law: "order-independence", History: x.hist, Other: y.hist, Result: y.view}}})
+	}
 	allMask := uint(1)<<uint(len(sc.Pods)) - 1
 
 	maporder.Set(mapSeeds[0])
@@ -461,7 +538,7 @@ func explore(sc *scenario, kindID, tier string, budget *engine.Budget) *scenario
 			canon[rep] = first + "|" + v.canon()
 			lastHist = hist
 			if rep == 0 {
-				finals = append(finals, &finalState{hist: append([]string{}, hist...), view: v, clean: true})
+				dor.add(&finalState{hist: append([]string{}, hist...), view: v, clean: true})
 				out.PGs = max(out.PGs, len(v.PGs))
 				if out.Sample == nil {
 					out.Sample = map[string]any{"scenario": sc.Name, "chain": sc.Chain, "history": hist, "resulting_store": v}
@@ -485,8 +562,8 @@ func explore(sc *scenario, kindID, tier string, budget *engine.Budget) *scenario
 
 	// ---- phase 1b: replica-count independence: with only a subset S of the sibling pods created, one pass over S
 	// must give every PodGroup the same grouper-owned content as with all siblings present.
-	if len(finals) > 0 && len(sc.Pods) > 1 {
-		full := finals[0]
+	if dor.ref != nil && len(sc.Pods) > 1 {
+		full := dor.ref
 		for mask := uint(1); mask < allMask; mask++ {
 			skip := false
 			for i, p := range sc.Pods {
@@ -537,10 +614,12 @@ func explore(sc *scenario, kindID, tier string, budget *engine.Budget) *scenario
 	stores := map[string]bool{}
 	w.reset(nil)
 	root := &node{snap: w.snapshot()}
-	key := func(canon string, tr tracker) string { return fmt.Sprintf("%s#%d#%v", canon, tr.since, tr.foreign > 0) }
+	key := func(canon string, tr tracker) string {
+		return engine.HashKey(canon) + fmt.Sprintf("#%d#%v", tr.since, tr.foreign > 0)
+	}
 	rootCanon := w.view().canon()
 	seen[key(rootCanon, root.tr)] = true
-	stores[rootCanon] = true
+	stores[engine.HashKey(rootCanon)] = true
 	frontier := []*node{root}
 	// second root: the store after one full pass (identity order); depth is counted from the nearest root, so
 	// histories of up to bd.depth further reconciles / foreign updates AFTER the first pass are covered
@@ -558,7 +637,7 @@ func explore(sc *scenario, kindID, tier string, budget *engine.Budget) *scenario
 			addV(vs)
 		}
 		c := w.view().canon()
-		stores[c] = true
+		stores[engine.HashKey(c)] = true
 		if k := key(c, tr); !seen[k] {
 			seen[k] = true
 			frontier = append(frontier, &node{snap: w.snapshot(), tr: tr, hist: hist, allRec: true})
@@ -605,7 +684,7 @@ func explore(sc *scenario, kindID, tier string, budget *engine.Budget) *scenario
 				}
 				v := w.view()
 				c := v.canon()
-				stores[c] = true
+				stores[engine.HashKey(c)] = true
 				if len(vs) > 0 {
 					addV(vs)
 					if out.HarnessErr != "" {
@@ -624,7 +703,7 @@ func explore(sc *scenario, kindID, tier string, budget *engine.Budget) *scenario
 					}
 				}
 				if all {
-					finals = append(finals, &finalState{hist: hist, view: v, clean: tr.foreign == 0})
+					dor.add(&finalState{hist: hist, view: v, clean: tr.foreign == 0})
 				}
 				if len(seen) >= bd.maxStates {
 					out.CapHit = true
@@ -639,37 +718,7 @@ func explore(sc *scenario, kindID, tier string, budget *engine.Budget) *scenario
 	out.Closed = len(frontier) == 0 && !out.CapHit
 	_ = allMask
 
-	// ---- (2) differential oracle over all all-reconciled stores
-	out.Finals = len(finals)
-	// order-dependence: stores reached by the same multiset of actions in a different order must be equal;
-	// repeat-dependence: stores reached by different multisets (more passes, interleaved foreign updates) must
-	// agree on everything the grouper owns.
-	report := func(law string, x, y *finalState, f, d string) {
-		v := engine.Violation{Property: "C18", Key: fmt.Sprintf("C18/%s kind=%s field=%s", law, sc.Kind, f),
-			Message: fmt.Sprintf("%s: the PodGroup state after all pods were reconciled depends on the history: %v vs %v: %s", sc.Name, x.hist, y.hist, d),
-			Replay:  replayData{Scenario: sc.Name, Chain: sc.Chain, Law: "order-independence", History: x.hist, Other: y.hist, Result: y.view}}
-		addV([]engine.Violation{v})
-	}
-	groups := map[string]*finalState{}
-	var firsts []*finalState
-	for _, fs := range finals {
-		ms := append([]string{}, fs.hist...)
-		sort.Strings(ms)
-		k := strings.Join(ms, ",")
-		if ref, ok := groups[k]; ok {
-			if f, d := diffFinal(ref, fs); f != "" {
-				report("order-dependent", ref, fs, f, d)
-			}
-			continue
-		}
-		groups[k] = fs
-		firsts = append(firsts, fs)
-	}
-	for i := 1; i < len(firsts); i++ {
-		if f, d := diffFinal(firsts[0], firsts[i]); f != "" {
-			report("repeat-dependent", firsts[0], firsts[i], f, d)
-		}
-	}
+	out.Finals = dor.count
 
 	out.States = len(stores)
 	out.Reconciles = st.reconciles
